@@ -241,7 +241,7 @@ def run_multi(case):
         for i, rel in enumerate(['a_first.py', 'b_second.py', 'b_second_grows.py', os.path.join('pkg', 'c_third.py'), os.path.join('pkg', 'c_third_grows.py'), os.path.join('pkg', 'sub', 'd_fourth.pyw')]):
             src = (MULTI_SRC.replace('TAG', repr('file %d' % i)) + ('extra_%d = gamma\n' % i) * i).encode()
             if 'grows' in rel:
-                src = b'EPSILON=1e-5' if i == 2 else b'x=[]\ny=True if 0in x else False'      # minified form is longer: passed through, the run goes on
+                src = b'EPSILON=1e-5' if (i == 2 or case.get('order', 0) % 2) else b'x=[]\ny=True if 0in x else False'      # minified form is longer: passed through, the run goes on (every other run: two byte-identical growers)
             os.makedirs(os.path.dirname(os.path.join(d, rel)) or d, exist_ok=True)
             with open(os.path.join(d, rel), 'wb') as f:
                 f.write(src)
